@@ -8,7 +8,7 @@ HERE = os.path.dirname(os.path.dirname(os.path.abspath(__file__)))
 n = sys.argv[1]
 ids = sys.argv[2:]
 props = [json.loads(l) for l in open(os.path.join(HERE, "properties.jsonl"))]
-STEER = open(os.path.join(HERE, "scratch", f"SEED_STEER_{n}.txt")).read().strip()
+STEER = open(os.path.join(HERE, "tools", f"SEED_STEER_{n}.txt")).read().strip()
 for p in props:
     if ids and p["id"] not in ids:
         continue
@@ -26,5 +26,5 @@ for p in props:
            "HOW TO CHOOSE THIS TIME: " + STEER, "", "ALREADY PLANTED BY OTHERS AND CAUGHT (do something DIFFERENT):"]
     txt += ["- " + s for s in planted if s]
     open(os.path.join(wt, "PROPERTY.txt"), "w").write("\n".join(txt) + "\n")
-    open(os.path.join(wt, "SEED_BRIEF.md"), "w").write(open(os.path.join(HERE, "scratch", "SEED_BRIEF.md")).read())
+    open(os.path.join(wt, "SEED_BRIEF.md"), "w").write(open(os.path.join(HERE, "tools", "SEED_BRIEF.md")).read())
     print(wt, len(planted), "already planted")
